@@ -80,6 +80,10 @@ impl<T, const N: usize> SmallVec<[T; N]> {
     pub uninterp spec fn content(&self) -> Seq<T>;
     #[verifier::external_body]
     pub fn as_slice(&self) -> (r: &[T]) ensures r@ == self.content() { unimplemented!() }
+    #[verifier::external_body]
+    pub fn is_empty(&self) -> (r: bool) ensures r == (self.content().len() == 0) { unimplemented!() }
+    #[verifier::external_body]
+    pub fn len(&self) -> (r: usize) ensures r == self.content().len() { unimplemented!() }
 }
 impl<T, const N: usize> FromIterator<T> for SmallVec<[T; N]> {
     open spec fn collected(&self) -> Seq<T> { self.content() }
